@@ -55,8 +55,14 @@ def _dispatch(ctx) -> None:
                    "an unknown unit must raise ValueError before the getattr dispatch", m.loc(fn))
             pre = "_start_of_" if q == "start_of" else "_end_of_"
             calls = [c for c in core.calls(fn) if nun(c.func) == "getattr" and len(c.args) == 2]
-            ok = bool(calls) and all(nun(c.args[1]) == f"f'{pre}{{unit}}'" for c in calls)
-            ctx.ob("DISPATCH.name", f"{cls}.{q}", ok, f"dispatch names {[nun(c.args[1]) for c in calls]}; must be f'{pre}{{unit}}'", m.loc(fn))
+            def name_of(a):      # a named intermediate (`helper = f"_start_of_{unit}"`) is looked through
+                if isinstance(a, ast.Name):
+                    vs = core.assigns_to(fn, a.id)
+                    if len(vs) == 1:
+                        return nun(vs[0])
+                return nun(a)
+            ok = bool(calls) and all(name_of(c.args[1]) == f"f'{pre}{{unit}}'" for c in calls)
+            ctx.ob("DISPATCH.name", f"{cls}.{q}", ok, f"dispatch names {[name_of(c.args[1]) for c in calls]}; must be f'{pre}{{unit}}'", m.loc(fn))
 
 
 def _field_map(m: core.Mod, cls: str, fn: ast.FunctionDef):
@@ -171,8 +177,88 @@ def _week(ctx) -> None:
 SMALL = {"second", "minute", "hour"}
 
 
+def _fold_tabulate(ctx, m, q: str) -> bool | None:
+    """start_of()/end_of() dispatchers decided on abstract boundary scenarios: the body is run by the checker's interpreter
+    on stub values.  A helper `_start_of_<unit>` called on a receiver with fold f yields, for the boundary wall time W:
+    normal -> (W, offset O); skipped -> W+gap for f=1 (forward), W-gap for f=0 (backward); repeated -> W with the first
+    (f=0) or second (f=1) offset.  Expected whatever fold the instance carries: start_of resolves a skipped start forward and
+    end_of a skipped end backward; for day-and-above units a repeated start is its first, a repeated end its last occurrence;
+    for hour/minute/second the instance's own occurrence is kept."""
+    from types import SimpleNamespace as NS
+    from ..rules import minieval
+    fn = m.func(f"DateTime.{q}")
+    start = q == "start_of"
+    try:
+        units = list(core.fold(m.assign("_MODIFIERS_VALID_UNITS", "DateTime"), m, "DateTime"))
+    except Exception:       # noqa: BLE001
+        return None
+    W, O1, O2 = 1000, 100, 200
+
+    def value(kind, wall, off, fold, ambiguous):
+        def replace(fold=None, **kw):
+            if kw:
+                raise core.Unsupported("replace() with other fields")
+            if ambiguous:
+                return resolve(kind, fold)
+            return value(kind, wall, off, fold, False)
+        # two values of the same zone compare by their wall clock, not by fold or offset (datetime's intra-zone comparison)
+        return minieval.Stub(naive=lambda: wall, utcoffset=lambda: off, fold=fold, replace=replace, _wall=wall, _off=off, _eqkey=wall)
+
+    def resolve(kind, fold):
+        if kind == "normal":
+            return value(kind, W, O1, fold, False)
+        if kind == "skipped":
+            return value(kind, W + 1, O2, fold, False) if fold == 1 else value(kind, W - 1, O1, fold, False)
+        return value(kind, W, O1 if fold == 0 else O2, fold, True)
+
+    def receiver(kind, fold):
+        ns = NS(fold=fold, _MODIFIERS_VALID_UNITS=units, _SUB_DAY_UNITS=("second", "minute", "hour"))
+        ns.replace = lambda fold=None, **kw: receiver(kind, fold)
+        for u in units:
+            setattr(ns, f"_start_of_{u}", lambda k=kind, f_=fold: resolve(k, f_))
+            setattr(ns, f"_end_of_{u}", lambda k=kind, f_=fold: resolve(k, f_))
+        return ns
+    bad, n = [], 0
+    try:
+        for unit in units:
+            small = unit in SMALL
+            for kind in ("normal", "skipped", "repeated"):
+                for fold in (0, 1):
+                    got = minieval.call(fn, [receiver(kind, fold), unit], {}, {"$globals": {"ValueError": ValueError}})
+                    n += 1
+                    if kind == "normal":
+                        want = (W, O1)
+                    elif kind == "skipped":
+                        want = (W + 1, O2) if start else (W - 1, O1)
+                    elif small:
+                        want = (W, O1 if fold == 0 else O2)
+                    else:
+                        want = (W, O1) if start else (W, O2)
+                    if (getattr(got, "_wall", None), getattr(got, "_off", None)) != want:
+                        bad.append(f"{unit}, {kind} boundary, instance fold={fold}: wall {getattr(got, '_wall', None) - W:+d}, offset "
+                                   f"{'first' if getattr(got, '_off', None) == O1 else 'second'} (expected wall {want[0] - W:+d}, {'first' if want[1] == O1 else 'second'})")
+    except (core.Unsupported, TypeError, AttributeError, KeyError, IndexError, ValueError) as e:
+        ctx.unverified("FOLD.tabulated", f"DateTime.{q}", f"outside the checker's interpreter: {type(e).__name__}: {e}", m.loc(fn))
+        return None
+    ctx.ob("FOLD.tabulated", f"DateTime.{q}", not bad,
+           f"{n} (unit, boundary kind, instance fold) scenarios evaluated: " + (f"wrong: {bad[:3]}" if bad else
+           f"a skipped boundary is resolved {'forward' if start else 'backward'}, a repeated one to its {'first' if start else 'last'} occurrence "
+           f"(own occurrence for hour/minute/second), whatever fold the value carries"), m.loc(fn))
+    return not bad
+
+
 def _fold_flow(ctx) -> None:
     m = pmod("datetime")
+    tabs = {q: _fold_tabulate(ctx, m, q) for q in ("start_of", "end_of")}
+    if all(tabs.values()):
+        # both dispatchers are right on every scenario: their shape is not a property
+        setf = m.func("DateTime.set")
+        fwd = any(nun(core.kw(c).get("fold")) == "self.fold" for c in core.calls(setf) if nun(c.func).endswith("create"))
+        ctx.ob("FOLD.forward", "DateTime.set/fold", fwd, "set() must forward fold=self.fold to create() (second/minute/hour rely on it)", m.loc(setf))
+        for q in ("start_of", "end_of"):
+            ctx.ob("FOLD.flow", f"DateTime.{q}/day-and-above", True, "established by the scenario tabulation", m.rel, nontrivial=False)
+            ctx.ob("FOLD.small-units", f"DateTime.{q}/instance-fold", True, "established by the scenario tabulation", m.rel, nontrivial=False)
+        return
     # set() forwards the instance's fold (so the receiver's fold decides)
     setf = m.func("DateTime.set")
     fwd = any(nun(core.kw(c).get("fold")) == "self.fold" for c in core.calls(setf) if nun(c.func).endswith("create"))
